@@ -190,6 +190,35 @@ type c07Gate struct {
 	Reports []uint64 `json:"reports"`  // thresholds reported, in order (any order, repeats, zeros, decreasing)
 	GapUs   []int    `json:"gap_us"`   // pause before each report (microseconds)
 	CloseAt int      `json:"close_at"` // close the observer after this many reports (-1 = never)
+	// kind of each event (cyclic; empty = all mutations): mut del exp, cc cd cf sc sd cm (system events), adv (seqno advanced)
+	Kinds []string `json:"kinds,omitempty"`
+}
+
+// seqno of any event the observer hands to the stream (document, system, seqno-advanced)
+func c07ListenerSeq(a models.ListenerArgs) (uint64, bool) {
+	switch v := a.Event.(type) {
+	case models.DcpMutation:
+		return v.SeqNo, true
+	case models.DcpDeletion:
+		return v.SeqNo, true
+	case models.DcpExpiration:
+		return v.SeqNo, true
+	case models.DcpSeqNoAdvanced:
+		return v.SeqNo, true
+	case models.DcpCollectionCreation:
+		return v.SeqNo, true
+	case models.DcpCollectionDeletion:
+		return v.SeqNo, true
+	case models.DcpCollectionFlush:
+		return v.SeqNo, true
+	case models.DcpScopeCreation:
+		return v.SeqNo, true
+	case models.DcpScopeDeletion:
+		return v.SeqNo, true
+	case models.DcpCollectionModification:
+		return v.SeqNo, true
+	}
+	return 0, false
 }
 
 func c07ExecGate(sc c07Gate) (string, map[string]bool) {
@@ -207,9 +236,9 @@ func c07ExecGate(sc c07Gate) (string, map[string]bool) {
 	var mu sync.Mutex
 	var deliveredList []got
 	obs := couchbase.NewObserver(cfg, 3, ^uint64(0), func(a models.ListenerArgs) {
-		if m, ok := a.Event.(models.DcpMutation); ok {
+		if seq, ok := c07ListenerSeq(a); ok {
 			mu.Lock()
-			deliveredList = append(deliveredList, got{m.SeqNo, maxIssued.Load(), closedFlag.Load()})
+			deliveredList = append(deliveredList, got{seq, maxIssued.Load(), closedFlag.Load()})
 			mu.Unlock()
 		}
 	}, func(models.DcpStreamEndContext) {}, map[uint32]string{}, tracing.NewTracerComponent())
@@ -222,8 +251,18 @@ func c07ExecGate(sc c07Gate) (string, map[string]bool) {
 			return
 		}
 		obs.SnapshotMarker(models.DcpSnapshotMarker{VbID: 3, StartSeqNo: sc.Events[0], EndSeqNo: sc.Events[len(sc.Events)-1]})
-		for _, s := range sc.Events {
-			obs.Mutation(gocbcore.DcpMutation{SeqNo: s, VbID: 3, Key: []byte("k"), Cas: 1})
+		for i, s := range sc.Events {
+			kind := "mut"
+			if len(sc.Kinds) > 0 {
+				kind = sc.Kinds[i%len(sc.Kinds)]
+			}
+			if kind == "adv" && i+1 < len(sc.Events) {
+				// a seqno-advanced event closes its snapshot: the server announces the next one
+				feedEvent(obs, 3, srvEvent{Seq: s, Kind: kind, Key: "k"})
+				obs.SnapshotMarker(models.DcpSnapshotMarker{VbID: 3, StartSeqNo: sc.Events[i+1], EndSeqNo: sc.Events[len(sc.Events)-1]})
+			} else {
+				feedEvent(obs, 3, srvEvent{Seq: s, Kind: kind, Key: "k"})
+			}
 			fed.Add(1)
 		}
 	}()
@@ -331,6 +370,9 @@ func TestC07_Gate(t *testing.T) {
 		sc.GapUs = rapid.SliceOfN(rapid.SampledFrom([]int{0, 0, 50, 300, 1500}), 1, 4).Draw(rt, "gaps")
 		if rapid.IntRange(0, 3).Draw(rt, "closes") == 3 && len(sc.Reports) > 0 {
 			sc.CloseAt = rapid.IntRange(0, len(sc.Reports)-1).Draw(rt, "closeat")
+		}
+		if rapid.Bool().Draw(rt, "mixedkinds") {
+			sc.Kinds = rapid.SliceOfN(rapid.SampledFrom([]string{"mut", "mut", "del", "exp", "adv", "adv", "cc", "cd", "cf", "sc", "sd", "cm"}), 1, 8).Draw(rt, "kinds")
 		}
 		d, labels := c07ExecGate(sc)
 		if d != "" {
